@@ -147,7 +147,10 @@ def _ident_tail():
 PLAIN_TEXT_ALPHABET = 'abcdefghijklmnopqrstuvwxyzABCDEFGHIJKLMNOPQRSTUVWXYZ0123456789 .,;:()-_/+*=<>[]{}!?%&#@$^~|'
 NASTY_CHUNKS = ['\\', '\\n', '\\t', '\\x4', '\\u12', '\\N', '\\0', "\\'", "'", "'''", '{{ x }}', '{% if %}', '{#', '#}',
                 '\t', '\n', '\r\n', '\r', '  ', '   ', 'a' * 90, 'Z9' * 70, '', 'é', 'üß', '中文',
-                '\U0001f600', '%s', '%(x)s', '$', '`', '-- not a comment', 'END', 'BEGIN', ' ', 'x', 'word', '\\\n', '\\']
+                '\U0001f600', '%s', '%(x)s', '$', '`', '-- not a comment', 'END', 'BEGIN', ' ', 'x', 'word', '\\\n', '\\',
+                # what JSON / HTML-safe encoders turn characters into, written literally in the MIB text
+                '\\u0027', '\\u003c', '\\u003e', '\\u0026', '\\"'[:-1] + 'u0022', '<', '>', '&', '&amp;', '&#39;', '<b>', '\\\\', '\\/',
+                '\\b', '\\f', '\\r']
 
 
 def text_strategy(kind):
